@@ -312,6 +312,8 @@ def run(ctx):
         ctx.check_proof("QuadHistory_proofs")      # histories of any length
         from vlib import resulthistory
         nhist += resulthistory.replay(ctx, ["quad", "mcquad", "quad:alias", "mcquad:alias"], "quad")
+        from vlib import bufferreuse
+        nhist += bufferreuse.replay(ctx, ["quad", "mcquad"], "quad")
         full = sorted([h_["hist"] for h_ in hnodes.values() if len(h_["hist"]) == 3], key=lambda h_: [(c_["call"]["dtype"], c_["call"]["n"]) for c_ in h_])
         TD = {"f32": torch.float32, "f64": torch.float64}
         for hi, hist in enumerate(full):
